@@ -260,7 +260,9 @@ def run(ctx, chk):
     # (= the open decision list, C16.V1-V3) rejects a file only for the documented reasons -- any
     # extra reason would make a restarted daemon wipe a segment its predecessor left valid
     from . import C11, C03, C16
+    from . import C02
     imports = () if getattr(chk, '_nested', False) else ((C11, ('C11.P1', 'C11.P2', 'C11.P3', 'C11.P4'), 'C04.T4'), (C03, ('C03.G1',), 'C04.T7'),
+                            (C02, ('C02.S3',), 'C04.T7'),
                             (C16, ('C16.V1', 'C16.V2', 'C16.V3'), 'C04.T8'))
     for mod, rules, tag in imports:
         sub = type(chk)('C04', LEVEL, chk.tier)
